@@ -138,12 +138,10 @@ Proof. constructor; [reflexivity|]. constructor; [|constructor]. simpl. construc
 Lemma refuted_delete_in_block_panics : ~ C16_no_panic (Build_quirks true false false false false false).
 Proof.
   intro H.
-  specialize (H no_order no_link fdel false 10%nat st1 root1 [sega; seg1] t1).
-  vm_compute in H.
-  eapply H; try reflexivity; try discriminate.
-  - exact fdel_wf.
-  - exact t1_valid.
-  - exact t1_wfx.
+  eapply (H no_order no_link fdel false 10%nat st1 root1 [sega; seg1] t1 _ _ fdel_wf eq_refl t1_valid t1_wfx).
+  - vm_compute. reflexivity.
+  - discriminate.
+  - vm_compute. reflexivity.
 Qed.
 
 Theorem pinned_refuted : ~ C16_returns_spec q_pinned /\ ~ C16_no_panic q_pinned.
@@ -177,7 +175,7 @@ Lemma ex_coherent : coherent ex_link ex_st'.
 Proof.
   intros b v. unfold ex_link.
   destruct b as [| | | | | | |l|]; try discriminate.
-  destruct l as [|d [|? ?]]; try discriminate. destruct d; try discriminate.
+  destruct l as [|d [|? ?]]; try discriminate; [|destruct d; discriminate]. destruct d; try discriminate.
   simpl. destruct (N.eqb (Z.to_N z) 2) eqn:E2; simpl.
   - apply N.eqb_eq in E2. intro E; inversion E; subst. f_equal. f_equal. f_equal. lia.
   - destruct (N.eqb (Z.to_N z) 1) eqn:E1; simpl; [|discriminate].
